@@ -221,7 +221,7 @@ def rule_hook(E, R):
     if rec_if is None:
         R.violation(rule, fn, "the hook records iff this thread's catch level is > 0", "no test of the level found", clo["sp"])
     else:
-        rec = [c for c in exprs(rec_if["then"], "Call") if norm(c.get("callee", "")) == P + "record_backtrace"]
+        rec = [c for c in exprs(rec_if["then"], "Call") if _recorder_of(E, c) is not None]
         bt = _tls_with(rec_if["then"], "PANIC_CATCHER_BACKTRACE")
         R.check(len(rec) == 1 and len(bt) == 1 and list(exprs(rec_if["then"], "Ret")), rule, fn,
                 "while catching, the message is recorded into the thread's buffer and the hook returns", where=rec_if["sp"])
@@ -243,19 +243,38 @@ def rule_hook(E, R):
         ok = bool(a) and any(norm(x.get("callee", "")) == "std::process::abort" for x in exprs(a["body"], "Call"))
         R.check(ok, rule, fn, "Abort: the process aborts", where=fall["sp"])
     # the message is part of the recorded text
-    hr = E.hir(P + "record_backtrace")
+    hrs = {id(_recorder_of(E, c)): _recorder_of(E, c) for c in exprs(cb, "Call") if _recorder_of(E, c) is not None}
+    hr = list(hrs.values())[0] if len(hrs) == 1 else None
     if hr:
+        rname = norm(hr["path"])
         pay = [s for s in exprs(hr["body"], "SLet") if s["pat"].get("k") == "PBinding" and "init" in s and
                len([c for c in exprs(s["init"], "MethodCall", into_closures=False) if c["m"] == "downcast_ref"]) >= 2]
         dc = [c for c in exprs(pay[0]["init"], "MethodCall") if c["m"] == "downcast_ref"] if pay else []
         pname = pay[0]["pat"]["name"] if pay else None
-        used = any(local_name(p) == pname for w in exprs(hr["body"], "Call") if norm(w.get("callee", "")) in ("core::fmt::write",)
-                   for p in exprs(w, "Path"))
-        R.check(len(dc) == 2 and used, rule, P + "record_backtrace", "the panic payload (&str or String) is written into the recorded text", where=hr["span"])
-        clr = [c for c in exprs(hr["body"], "MethodCall") if c["m"] == "clear" and is_param(c["recv"], hr, 1)]
-        R.check(len(clr) == 1, rule, P + "record_backtrace", "the buffer is cleared first (no stale message is kept)", where=hr["span"])
+        writes = [w for w in exprs(hr["body"], "Call") if norm(w.get("callee", "")) in ("core::fmt::write", "alloc::fmt::format")]
+        used = any(local_name(p) == pname for w in writes for p in exprs(w, "Path"))
+        R.check(len(dc) == 2 and used, rule, rname, "the panic payload (&str or String) is written into the recorded text", where=hr["span"])
+        # no stale message: the buffer written into is cleared first (out-parameter), or it is a fresh String that replaces the
+        # thread's buffer as a whole
+        clr = [c for c in exprs(hr["body"], "MethodCall") if c["m"] == "clear" and any(is_param(c["recv"], hr, i_) for i_ in range(len(hr.get("params", []))))]
+        fresh = any(s_["pat"].get("k") == "PBinding" and norm(strip(s_.get("init", {})).get("callee", "")) == "alloc::string::String::new" and
+                    local_name(tail(hr["body"])) == s_["pat"]["name"] for s_ in exprs(hr["body"], "SLet"))
+        replaced = rec_if is not None and any(a_ for a_ in exprs(rec_if["then"], "Assign") if strip(a_["l"]).get("k") == "Unary" and
+                                              _recorder_of(E, strip(a_["r"])) is hr)
+        R.check(len(clr) == 1 or (fresh and replaced), rule, rname, "the buffer is cleared first (no stale message is kept)", where=hr["span"])
     else:
-        R.cannot(rule, P + "record_backtrace", "anchor not found")
+        R.cannot(rule, P + "record_backtrace", "the function that renders the panic message (payload downcast) was not found")
+
+
+def _recorder_of(E, c):
+    """the local function called by c, if it is the one that renders a panic message (it downcasts the payload)"""
+    if c.get("k") != "Call":
+        return None
+    hh = E.hir_by_dp.get(c.get("resolved_dp") or c.get("callee_dp") or "")
+    if hh and "body" in hh and norm(hh["path"]).startswith(P) and \
+            len([m for m in exprs(hh["body"], "MethodCall") if m["m"] == "downcast_ref"]) >= 2:
+        return hh
+    return None
 
 
 def run(F, R, tier):
